@@ -290,6 +290,79 @@ func c10Run(c *Ctx) {
 	if c.Shard == 2 && c.Thorough() {
 		c10Volume(c, freshDir(c.Scratch, "c10vol"), 70000)
 	}
+	if c.Shard == 3%c.NShards {
+		c10NearDuplicates(c)
+	}
+}
+
+// c10NearDuplicates: literals that differ in ONE position, for every position.  For each length of a set spanning
+// short to multi-kilobyte values, the base text and its L variants (character p replaced, for every p) plus the
+// texts with one character more / less at either end go through the redaction path of ONE process in encrypt mode:
+// L+5 pairwise different plaintexts must give L+5 pairwise different ciphertexts, each decrypting to its own
+// plaintext.  A ciphertext table keyed by a digest of part of the value (its head, its tail, its length, a sample
+// of positions) confuses two of them wherever the positions it ignores lie.
+func c10NearDuplicates(c *Ctx) {
+	lengths := []int{1, 2, 16, 17, 64, 100, 255, 256, 257, 300, 520, 1300}
+	if c.Thorough() {
+		lengths = append(lengths, 2049, 4100, 9000)
+	}
+	Flags{Y: true}.Apply()
+	defer Flags{}.Apply()
+	enc := func(pt string) (string, string) {
+		in := LO("t", LO("$date", LS("2024-05-01T10:00:00.123+00:00")), "s", LS("I"), "c", LS("COMMAND"), "id", LN("1"), "ctx", LS("c"), "msg", LS("Slow query"),
+			"attr", LO("ns", LS("d.c"), "command", LO("find", LS("c"), "filter", LO("fld", LS(pt)), "$db", LS("d"))))
+		out, ok, pv := redactLine(in.JSON())
+		c.Eval(1)
+		if pv != nil || !ok {
+			return "", "the line is rejected"
+		}
+		j, err := ParseJSON([]byte(out))
+		if err != nil {
+			return "", "unparsable output"
+		}
+		o := follow(j, []int{6, 1, 1, 0})
+		if o == nil || o.Kind != JStr {
+			return "", "the leaf is not a string"
+		}
+		raw, err := base64.StdEncoding.DecodeString(o.Str)
+		if err != nil {
+			return o.Str, "the emitted text is not base64"
+		}
+		if b, err := Decrypt(raw, harnessKey); err != nil || string(b) != pt {
+			return o.Str, fmt.Sprintf("the emitted text does not decrypt to the literal (err %v, got %q…)", err, trunc(string(b), 40))
+		}
+		return o.Str, ""
+	}
+	for _, L := range lengths {
+		base := []byte(strings.Repeat("The quick brown fox jumps over the lazy dog 0123456789. ", L/56+1)[:L])
+		variants := []string{string(base), "x" + string(base), string(base) + "x", string(base[1:]), string(base[:L-1])}
+		for p := 0; p < L; p++ {
+			v := append([]byte(nil), base...)
+			if v[p] == '#' {
+				v[p] = '%'
+			} else {
+				v[p] = '#'
+			}
+			variants = append(variants, string(v))
+		}
+		seen := map[string]int{}
+		for vi, pt := range variants {
+			if vi > 0 && pt == variants[0] {
+				continue
+			}
+			ct, bad := enc(pt)
+			c.Distinct(fmt.Sprintf("neardup|%d|%d", L, vi))
+			if bad != "" {
+				c.Violate("near-duplicates:wrong-ciphertext", fmt.Sprintf("length %d, variant %d (one position differs from the base text): %s", L, vi, bad), int64(L), map[string]any{"kind": "near-duplicates", "length": L, "variant": vi}, nil)
+				continue
+			}
+			if o, ok := seen[ct]; ok && variants[o] != pt {
+				c.Violate("near-duplicates:collision", fmt.Sprintf("two different literals of length ~%d (variants %d and %d: they differ in one position) get the same ciphertext in one run", L, o, vi), int64(L), map[string]any{"kind": "near-duplicates", "length": L, "a": o, "b": vi}, nil)
+			}
+			seen[ct] = vi
+		}
+	}
+	c.Count("near_duplicate_lengths", int64(len(lengths)))
 }
 
 // c10CLI: separate processes, two line orders, the run that creates the key file vs later runs,
